@@ -22,6 +22,7 @@ unsigned char DROPCOUNT[IDS];
 #endif
 _Bool DOUBLE_DROP = 0, GARBAGE_DROP = 0, GARBAGE_READ = 0;
 unsigned char DROP_ORDER[64]; unsigned DROP_N = 0;      /* ids in the order their destructors ran */
+unsigned char CLONE_OF[IDS];                          /* for an id made by user_clone: the id it was cloned from */
 enum { F_NONE = 0, F_DROP, F_CLONE, F_CALL, F_NEXT, F_EQ };
 unsigned FAULT_KIND = F_NONE, FAULT_AT = 0;
 unsigned EV[6];
@@ -46,7 +47,9 @@ static tok_t user_clone(tok_t *src) {
   tok_t t = {0};
   if (src->id >= IDS || LEDGER[src->id] != LIVE) GARBAGE_READ = 1;
   if (fault(F_CLONE)) { rt_panic(); return t; }
-  return fresh();
+  t = fresh();
+  if (t.id < IDS) CLONE_OF[t.id] = src->id;
+  return t;
 }
 static _Bool user_eq(tok_t *a, tok_t *b) {
   if (a->id >= IDS || LEDGER[a->id] != LIVE || b->id >= IDS || LEDGER[b->id] != LIVE) GARBAGE_READ = 1;
